@@ -255,6 +255,11 @@ def check_calls(plan, rt, strict=True):
             out.append(V("wrong_context", "resolver at %r did not receive the caller's context" % (list(path),)))
         if not same(args, c.args, ordered=False):
             out.append(V("wrong_arguments", "resolver at %r received %r, expected %r" % (list(path), args, c.args)))
+    for path, root in getattr(rt, "seen_roots", ()):
+        if root is not plan.root_value:
+            out.append(V("wrong_root_value", "resolver at %r saw info.root_value %r, the request's root value is %r" % (
+                list(path), root, plan.root_value)))
+            break
     if strict:
         nulls = visible_nulls(plan)
         for path, c in expected.items():
